@@ -1,5 +1,6 @@
 import ChythonModel.Proofs.C10WF
 import ChythonModel.Proofs.C10Layout3
+import ChythonModel.Proofs.C10V0
 import ChythonModel.Proofs.C10Half
 /-!
 # C10 — binary pack format: lossless round trip, stable published layout
@@ -65,6 +66,12 @@ theorem order_stream_roundtrip (codes : List Nat) (b b' : Nat) (h : ∀ c ∈ co
     (orderDec 0 b (orderEnc 0 b' codes)).take codes.length = codes ∧
     (orderEnc 0 b' codes).length = (3 * codes.length + 7) / 8 :=
   ⟨Proofs.C10.order_stream_roundtrip codes b b' h, orderEnc_length codes b'⟩
+
+/-- version-0 packs (earlier format): the decoder's order block reader returns exactly the codes that the old grouping
+    (`0 3 3 1 | 2 3 3`, five codes in two bytes) stores, for every bond count -/
+theorem v0_order_stream_roundtrip (codes : List Nat) (h : ∀ c ∈ codes, c < 8) :
+    ∃ pad, orderDecV0 (v0OrderBytes codes) = codes ++ pad :=
+  v0_orders codes h
 
 /-! ## molecules -/
 
